@@ -97,25 +97,26 @@ def cases(tier, cfg, seed):
     for T in TS:
         for n in (1, 2, 3, 4):
             for st in STRATS:
-                if 'Piv' in st and n > 3: continue
+                if 'Piv' in st and n > (2 if (tier == 'quick' and st != 'SimpleInvPiv') else 3): continue
+                if tier == 'quick' and n == 4 and st in ('BlockLU', 'SimpleLU') and T == 'float': continue
                 if tier == 'quick' and T == 'float' and st not in ('SimpleInv',): continue
                 out.append(Inv(T, n, st))
             out.append(Inv(T, n, 'SimpleInv', 'lazy')); out.append(Inv(T, n, 'SimpleInv', 'default'))
-        for n in ((5,) if tier == 'quick' else (5, 6, 7, 8)):
+        for n in (() if tier == 'quick' else (5, 6, 7, 8)):
             for st in ('SimpleLU', 'BlockLU'):
                 if T == 'float' and tier == 'quick': continue
                 out.append(Inv(T, n, st))
         out.append(InvBatch(T, (3,), 2)); out.append(InvBatch(T, (2, 2), 2))
         if tier != 'quick': out.append(InvBatch(T, (2,), 3)); out.append(InvBatch(T, (2, 1, 2), 2))
         if T == 'double':
-            for n in ((5,) if tier == 'quick' else (5, 6, 8, 9)): out.append(Inv(T, n, 'SimpleInv', 'default'))
+            for n in (() if tier == 'quick' else (5, 6, 8, 9)): out.append(Inv(T, n, 'SimpleInv', 'default'))
             for n in ((2, 3, 4, 5) if tier == 'quick' else (2, 3, 4, 5, 6, 8, 9, 12, 16)):
                 for tri in ('UniLower', 'Upper'): out.append(Inv(T, n, 'SimpleInv', 'tinverse', tri))
     return out
 
 
 def cfgs(tier): return main_cfgs(tier)
-def bounds(tier): return {'closed_form': 'n <= 4 all strategies (pivoted: n <= 3, all pivot paths)', 'lu_based': 'n = 5,6 (quick) .. 8', 'schur_default': 'n = 5 attempted',
+def bounds(tier): return {'closed_form': 'n <= 4 all strategies (pivoted: n <= 3, all pivot paths)', 'lu_based': 'n <= 4 (quick); 5..8 thorough', 'schur_default': 'n >= 5 thorough only (attempted)',
                           'triangular': 'n <= 5 (quick) .. 16', 'outside': 'recursion boundaries 8|9, 16|17, 32|33, 64|65 for values; batched inverse; the stability constant'}
 def mandatory(case_id, cfg_key): return False
 def on_compile_fail(case, cfg, cf): return 'broken'
